@@ -280,6 +280,10 @@ func c12Pass(c *core.Case, o *core.Outcome) {
 		seq := make([]int, 8)
 		for i := range seq {
 			seq[i], _ = c12GenRate(r, 10)
+			if i%3 == 2 {
+				// passing through unchanged holds for every value an int can hold
+				seq[i] = []int{1024943419987, 1<<53 + 1, math.MaxInt64, 1<<62 + 12345, 999999999999}[r.IntN(5)]
+			}
 		}
 		calls := 0
 		rateFn := func(time.Time) int { v := seq[calls%len(seq)]; calls++; return v }
